@@ -82,3 +82,61 @@ def cut(rng, lines, ncuts, main_rel="m/main.conf"):
         placements.append((rel, frel, where, i, j))
     main = docs.pop(main_rel)
     return main, docs, placements
+
+
+def cut_via_define(rng, lines, main_rel="m/main.conf"):
+    """one balanced range moved into a fragment that is included through a %define-d ABSOLUTE directory
+    (`%include $zcvd/name`): a definition flowing into the include line.  '@ZCVROOT@' / '@ZCVROOTURL@' stand for the
+    scratch directory and are filled in when the case is written out.  Returns (inline, main, files, placements)."""
+    import posixpath
+    ranges = [r for r in balanced_ranges(lines) if not any("%include" in l for l in lines[r[0]:r[1]])]
+    if not ranges:
+        return None
+    i, j = rng.choice(ranges)
+    kind = rng.choice(["define-path", "define-url"])
+    # (a directory name with a space only through the URL form: as a bare path the joined reference keeps the raw
+    #  space, which names the same file but is a different URL string than the harness' resolve table holds)
+    sub = rng.choice(["", "inc d", "x/y"]) if kind == "define-url" else rng.choice(["", "incd", "x/y"])
+    base = posixpath.dirname(main_rel)
+    fdir = posixpath.join(base, sub) if sub else base
+    name = "dfrag%s.conf" % rng.choice(["", " x"])
+    import urllib.request
+    if kind == "define-path":
+        val = "@ZCVROOT@/" + fdir
+        arg = rng.choice(["$zcvd/", "${ZCVD}/"]) + urllib.request.pathname2url(name)
+    else:
+        val = "@ZCVROOTURL@/" + urllib.request.pathname2url(fdir)
+        arg = rng.choice(["$zcvd/", "${zcvD}/"]) + urllib.request.pathname2url(name)
+    dline = "%define zcvd " + val
+    ind = lines[i][: len(lines[i]) - len(lines[i].lstrip())]
+    inline = [dline] + list(lines)
+    main = [dline] + lines[:i] + [ind + "%include " + arg] + lines[j:]
+    files = {posixpath.normpath(posixpath.join(fdir, name)): lines[i:j]}
+    return inline, main, files, [(main_rel, list(files)[0], kind, i, j)]
+
+
+def cut_shared(rng, lines, main_rel="m/main.conf"):
+    """the SAME fragment reached twice without any cycle: the balanced range is duplicated in the inline text and both
+    copies are replaced by an %include of one resource - directly (twice in one file) or through two wrapper fragments
+    that each include it (a diamond).  Returns (inline, main, files, placements)."""
+    import posixpath
+    ranges = [r for r in balanced_ranges(lines) if not any("%include" in l for l in lines[r[0]:r[1]])]
+    if not ranges:
+        return None
+    i, j = rng.choice(ranges)
+    frag = lines[i:j]
+    base = posixpath.dirname(main_rel)
+    ind = lines[i][: len(lines[i]) - len(lines[i].lstrip())]
+    inline = lines[:j] + frag + lines[j:]
+    shape = rng.choice(["twice", "diamond", "twice-nested"])
+    files = {posixpath.join(base, "shared.conf"): frag}
+    if shape == "twice":
+        main = lines[:i] + [ind + "%include shared.conf", ind + "%include shared.conf"] + lines[j:]
+    elif shape == "diamond":
+        files[posixpath.join(base, "w1.conf")] = ["%include shared.conf"]
+        files[posixpath.join(base, "sub", "w2.conf")] = ["# second path", "%include ../shared.conf"]
+        main = lines[:i] + [ind + "%include w1.conf", ind + "%include sub/w2.conf"] + lines[j:]
+    else:
+        files[posixpath.join(base, "w1.conf")] = ["%include shared.conf", "%include shared.conf"]
+        main = lines[:i] + [ind + "%include w1.conf"] + lines[j:]
+    return inline, main, files, [(main_rel, posixpath.join(base, "shared.conf"), "shared-" + shape, i, j)]
